@@ -27,6 +27,9 @@ type txCase struct {
 	Count      int      `json:"count,omitempty"`
 	PreJournal bool     `json:"pre_journal"` // journal table exists before the run (--allow-dirty); else statement (0,0) creates it
 	DryRun     bool     `json:"dry_run,omitempty"`
+	// Checkpoint: file 0 carries the atlas:checkpoint directive and the directory holds an older file
+	// (0_f.sql, recording (99,0)) that a first run must skip. Needs PreJournal.
+	Checkpoint bool `json:"checkpoint,omitempty"`
 }
 
 type mRev struct {
@@ -84,8 +87,14 @@ func (c *txCase) stmtSQL(f, i int, ok bool) string {
 
 func (c *txCase) dirFiles(fixAll bool) []dirFile {
 	var out []dirFile
+	if c.Checkpoint {
+		out = append(out, dirFile{"0_f.sql", "INSERT INTO journal VALUES (99, 0);\n"})
+	}
 	for f, tf := range c.Files {
 		var b strings.Builder
+		if c.Checkpoint && f == 0 {
+			b.WriteString("-- atlas:checkpoint\n\n")
+		}
 		if tf.Directive != "" {
 			b.WriteString("-- atlas:txmode " + tf.Directive + "\n\n")
 		}
